@@ -1076,8 +1076,10 @@ func (g *gram) callFn(fr *gframe, c *gconf, site *ssa.Call, callee *ssa.Function
 		}
 		g.chain = append(g.chain, funcName(callee))
 		g.traceStack = append(g.traceStack, tail(c.trace, 3))
+		g.siteStack = append(g.siteStack, site)
 		entry := &gconf{heap: entryHeap, facts: facts}
 		raw := g.invoke(callee, args, bind, entry, fr.depth+1)
+		g.siteStack = g.siteStack[:len(g.siteStack)-1]
 		g.chain = g.chain[:len(g.chain)-1]
 		g.traceStack = g.traceStack[:len(g.traceStack)-1]
 		delete(g.busy, key)
@@ -1253,6 +1255,7 @@ type gramRootResult struct {
 }
 
 type gramReport struct {
+	dynKeys  []dynKey
 	roots    []*gramRootResult
 	visited  int
 	stats    map[string]int
@@ -1364,6 +1367,9 @@ func runGram(w *World) *gramReport {
 	}
 	rep.visited = len(g.visited)
 	rep.aborted = g.aborted
+	for _, k := range sortedKeys(g.dynKeys) {
+		rep.dynKeys = append(rep.dynKeys, g.dynKeys[k])
+	}
 	rep.stats["grammar_functions_interpreted"] = len(g.visited)
 	rep.stats["grammar_calls_followed"] = g.nCalls
 	rep.stats["grammar_configurations"] = g.nConfigs
@@ -1495,4 +1501,126 @@ func smallIntFn(f *ssa.Function) bool {
 		}
 	}
 	return usesLen
+}
+
+// checkDynamicNames (C02.dup:dynamic): member names that come from data (the language tags of a language map) are
+// written in a loop over the entries. "No object repeats a member name" then needs a test, inside that loop and before
+// the write, that relates the entry's key to the keys of the OTHER entries: a lookup in a map of names already written,
+// an inner scan over the earlier entries, or a helper that is given the collection and the key. Without one, a value
+// holding the same tag twice (Append does not de-duplicate; a document with a repeated key decodes to such a value) is
+// written as {"en":"a","en":"b"}.
+func checkDynamicNames(w *World, c *Check, rule string) {
+	rep := runGram(w)
+	seen := map[*ssa.Call]bool{}
+	n := 0
+	for _, dk := range rep.dynKeys {
+		// innermost call site on the stack that sits in a loop of its function
+		var site *ssa.Call
+		for i := len(dk.stack) - 1; i >= 0; i-- {
+			cs := dk.stack[i]
+			if len(loopHeaders(cs.Parent())[cs.Block()]) > 0 {
+				site = cs
+				break
+			}
+		}
+		if site == nil || seen[site] {
+			continue
+		}
+		seen[site] = true
+		n++
+		f := site.Parent()
+		key := funcName(f) + ":dynamic-names"
+		if why := dedupGuard(w, site); why != "" {
+			c.ok(rule, key, w.InstrPos(site), "member names taken from data are written under "+why)
+		} else {
+			c.bad(rule, key, w.InstrPos(site), fmt.Sprintf("%s writes member names taken from data in a loop (reached from %s) without relating the entry's name to the names of the other entries: a value that holds the same name twice is written as an object that repeats a member name", funcName(f), dk.root))
+		}
+	}
+	c.stat("dynamic_member_name_loops", n)
+}
+
+// dedupGuard: a branch inside the loop around site, dominating it, whose condition depends on a map lookup, on a value
+// computed by an inner loop, or on a package call that is given an element-derived value together with the ranged
+// collection. Returns a description or "".
+func dedupGuard(w *World, site *ssa.Call) string {
+	f := site.Parent()
+	lh := loopHeaders(f)
+	var h *ssa.BasicBlock
+	for cand := range lh[site.Block()] {
+		if h == nil || len(loopBody(lh, cand)) < len(loopBody(lh, h)) {
+			h = cand
+		}
+	}
+	if h == nil {
+		return ""
+	}
+	for _, g := range rawGuards(site.Block()) {
+		if !lh[g.block][h] {
+			continue
+		}
+		found := ""
+		seen := map[ssa.Value]bool{}
+		var walk func(v ssa.Value, d int)
+		walk = func(v ssa.Value, d int) {
+			if v == nil || d > 12 || seen[v] || found != "" {
+				return
+			}
+			seen[v] = true
+			switch x := v.(type) {
+			case *ssa.Lookup:
+				if _, isMap := types.Unalias(x.X.Type()).Underlying().(*types.Map); isMap {
+					found = "a lookup in a map of names"
+				}
+			case *ssa.Extract:
+				walk(x.Tuple, d+1)
+			case *ssa.UnOp:
+				walk(x.X, d+1)
+			case *ssa.BinOp:
+				walk(x.X, d+1)
+				walk(x.Y, d+1)
+			case *ssa.Phi:
+				// a value computed by a loop nested inside ours (scan over the other entries)?
+				for hh := range lh[x.Block()] {
+					if hh != h && lh[hh][h] {
+						found = "a scan over the other entries"
+					}
+				}
+				for _, e := range x.Edges {
+					walk(e, d+1)
+				}
+				for _, p := range x.Block().Preds {
+					if iff, ok := p.Instrs[len(p.Instrs)-1].(*ssa.If); ok {
+						for hh := range lh[p] {
+							if hh != h && lh[hh][h] {
+								found = "a scan over the other entries"
+							}
+						}
+						walk(iff.Cond, d+1)
+					}
+				}
+			case *ssa.Call:
+				cal := x.Common().StaticCallee()
+				if cal != nil && w.InPkg(cal) {
+					hasColl := false
+					for _, a := range x.Common().Args {
+						if _, isSlice := types.Unalias(a.Type()).Underlying().(*types.Slice); isSlice && !isByteSlice(a.Type()) {
+							hasColl = true
+						}
+					}
+					if hasColl {
+						found = "a test by " + funcName(cal) + " against the collection"
+						return
+					}
+				}
+				for _, a := range x.Common().Args {
+					walk(a, d+1)
+				}
+			}
+		}
+		walk(g.cond, 0)
+		if found != "" {
+			return found
+		}
+	}
+	return ""
 }
